@@ -85,7 +85,8 @@ pub fn ident(id: &str) -> RcDoc<'_> {
 
 pub fn quote_ident(id: &str) -> RcDoc<'_> {
     str("'")
-        .append(format!("{}", id.escape_debug()))
+        // `\0` followed by a digit is an octal escape in JavaScript (an error in modules): write U+0000 as `\u{0}`
+        .append(super::candid::escape_text(id))
         .append("'")
         .append(RcDoc::space())
 }
